@@ -246,7 +246,7 @@ def features(cell):
     return f
 
 
-def expected_export(g, selected, encoding='kern', spine_ids=None, spine_types=None):
+def expected_export(g, selected, encoding='kern', spine_ids=None, spine_types=None, row_range=None, with_cells=False):
     """expected rows of dumps(doc, ...) for a generated document without measure range: list of
     (cells or None, features); cells is None when some cell is outside what the properties pin down"""
     rows = g.rows()
@@ -254,7 +254,10 @@ def expected_export(g, selected, encoding='kern', spine_ids=None, spine_types=No
     types = SUPPORTED if spine_types is None else spine_types
     out = []
     for r, row in enumerate(rows):
+        if row_range is not None and not (row_range[0] <= r <= row_range[1]):
+            continue
         cells = []
+        src = []
         undefined = False
         feats = set()
         for i, cell in enumerate(row):
@@ -265,10 +268,11 @@ def expected_export(g, selected, encoding='kern', spine_ids=None, spine_types=No
                 undefined = True
             feats |= features(cell)
             cells.append(t)
+            src.append(cell)
         if undefined:
-            out.append((None, feats))
+            out.append((None, feats, src) if with_cells else (None, feats))
         elif cells and not all(c in ('.', '*', '') for c in cells):
-            out.append((cells, feats))
+            out.append((cells, feats, src) if with_cells else (cells, feats))
     return out
 
 
@@ -295,3 +299,17 @@ def compare_export(got_text, want_rows):
 
 def grid(text):
     return engine.grid(text)
+
+
+def measure_starts(g):
+    """indices (into g.rows()) of the rows that open a measure: every barline row, and - when it comes before the
+    first barline - the first row holding a note, rest, chord or null token (a pickup / no opening barline)"""
+    rows = g.rows()
+    starts = []
+    for r, row in enumerate(rows):
+        kinds = {c.kind for c in row}
+        if 'barline' in kinds:
+            starts.append(r)
+        elif not starts and (kinds & {'note', 'rest', 'chord', 'null'} or any(c.kind == 'interp' and c.text == '*' for c in row)):
+            starts.append(r)
+    return starts
